@@ -75,7 +75,8 @@ def sig_records(job):
     sig = make_sig(cls, p, r.randint(0, 11))
     steps.append({"i": {"kind": "members", "cls": cls, "p": p}, "o": {"members": flat(sig)}})
     try:
-        ok = int(sig.create(path=("x",)).signature == sig)
+        # wiring itself calls create() with integer path items for arrayed members (In(sig).array(n))
+        ok = int(sig.create(path=("x",)).signature == sig and sig.create(path=("ports", r.randint(0, 3))).signature == sig)
     except Exception as e:
         ok = 0
     steps.append({"i": {"kind": "roundtrip", "cls": cls, "p": p}, "o": {"ok": ok}})
@@ -245,7 +246,11 @@ def main(tier):
         near = [q for q in pool if differ(t["p"], q) == 1]
         if len(near) > 12:
             near = r.sample(near, 12)
-        others = near + [r.choice(pool) for _ in range(6 if thorough else 3)]
+        # pairs that differ in exactly two parameters: differences must not "compensate" (addr_width vs granularity)
+        near2 = [q for q in pool if differ(t["p"], q) == 2]
+        if len(near2) > 10:
+            near2 = r.sample(near2, 10)
+        others = near + near2 + [r.choice(pool) for _ in range(6 if thorough else 3)]
         jobs.append((t, others, 0))
     traces = pmap(sig_records, jobs)
     comps = components(rng("c20-comps"), 400 if thorough else 120)
